@@ -111,6 +111,72 @@ def run(chk) -> None:
     chk.rule("R30f", "in the slicer the head of the source-only stack is compared with the patch only after the source-only slices before the patch have been flushed: the flush loop precedes the equality pop in every iteration")
     _r30e(chk, repo)
     _r30f(chk, repo)
+    chk.rule("R30g", "two patches are duplicates exactly when they make the same edit: FixPatch.dedupe_tuple() is built from the source range and the replacement text and nothing else (the identity _patches_conflict uses for same-range patches)")
+    chk.rule("R30h", "the slicer drops the head of the source-only stack whenever it covers exactly the range of the patch: the equality pop is conditioned on the stack being non-empty and that equality only")
+    _r30g(chk, repo)
+    _r30h(chk, repo)
+
+
+def _r30g(chk, repo) -> None:
+    f = repo.fn(PATCH, "FixPatch.dedupe_tuple")
+    rets = [r for r in walk_local(f) if isinstance(r, ast.Return) and r.value is not None]
+    if not rets:
+        raise AnalysisError("R30g: FixPatch.dedupe_tuple has no return; re-confirm the anchor by hand")
+    for r in rets:
+        attrs = sorted({x.attr for x in ast.walk(r.value) if isinstance(x, ast.Attribute) and isinstance(x.value, ast.Name) and x.value.id == "self"})
+        extra = [a for a in attrs if a not in ("source_slice", "fixed_raw")]
+        chk.require(
+            "source_slice" in attrs and "fixed_raw" in attrs and not extra, "R30g", r,
+            f"dedupe_tuple() is built from {attrs}: with {extra or 'a field missing'} the same edit reported twice (two variants, two categories) is no longer recognised as one, both copies "
+            "are merged (identical text is not a conflict) and an insertion is applied twice",
+            detail="dedupe_tuple: source range and replacement text only",
+        )
+
+
+def _r30h(chk, repo) -> None:
+    from ..idioms import conditions_at
+
+    f = repo.fn(LFILE, "LintedFile._slice_source_file_using_patches")
+    cfg = cfg_of(f)
+    n = 0
+    for l in [l for l in walk_local(f) if isinstance(l, ast.For)]:
+        lvars = {x.id for x in ast.walk(l.target) if isinstance(x, ast.Name)}
+        for c in [c for c in ast.walk(l) if isinstance(c, ast.Call) and last_attr(c) == "pop" and isinstance(c.func, ast.Attribute) and isinstance(c.func.value, ast.Name)]:
+            st = cfg.stmt_of(c)
+            if any(isinstance(p_, ast.While) for p_ in _anc(c, l)):
+                continue  # the flush loop
+            stack = c.func.value.id
+            conds = conditions_at(cfg, st)
+            eq = [e for e, pol in conds if pol and isinstance(e, ast.Compare) and len(e.ops) == 1 and isinstance(e.ops[0], ast.Eq) and stack in {x.id for x in ast.walk(e) if isinstance(x, ast.Name)}]
+            if not eq:
+                continue
+            n += 1
+            extra = []
+            for e, pol in conds:
+                if any(e is q for q in eq):
+                    continue
+                names = {x.id for x in ast.walk(e) if isinstance(x, ast.Name)}
+                if isinstance(e, ast.Name) and e.id == stack and pol:
+                    continue  # the stack is non-empty
+                if not pol and any(isinstance(w, ast.While) and (w.test is e or norm(w.test) == norm(e)) for w in ast.walk(l)):
+                    continue  # the flush loop has run to its end
+                if names & lvars:
+                    extra.append(("" if pol else "not ") + short(e, 40))
+            chk.require(
+                not extra, "R30h", st,
+                f"the head of `{stack}` is dropped only if, besides covering the patch's range, {extra} holds: a patch for which it does not leaves the covered slice on the stack, the next "
+                "flush emits that range a second time and the replacement is applied twice",
+                detail="slicer: equality pop depends on the equality only",
+            )
+    chk.count("R30h.equality_pops", n)
+    chk.floor("R30h.equality_pops", 1)
+
+
+def _anc(node, stop):
+    p_ = getattr(node, "_parent", None)
+    while p_ is not None and p_ is not stop:
+        yield p_
+        p_ = getattr(p_, "_parent", None)
 
 
 def _r30e(chk, repo) -> None:
@@ -730,6 +796,18 @@ def _r30d(chk, repo) -> None:
 from ..selftest import Variant  # noqa: E402
 
 VARIANTS = [
+    Variant(
+        "dedupe-key-includes-the-category", PATCH,
+        "            self.fixed_raw,\n        )\n",
+        "            self.fixed_raw,\n            self.patch_category,\n        )\n",
+        "R30g", "dedupe_tuple", "seeded C30-5",
+    ),
+    Variant(
+        "equality-pop-only-for-source-patches", LFILE,
+        "                and patch.source_slice == source_only_slices[0].source_slice()\n",
+        "                and patch.source_slice == source_only_slices[0].source_slice()\n                and patch.patch_category == \"source\"\n",
+        "R30h", "_slice_source_file_using_patches", "seeded C30-6",
+    ),
     Variant(
         "same-range-conflict-ignores-whitespace", PATCH,
         "        return first.fixed_raw != second.fixed_raw\n",
